@@ -112,15 +112,16 @@ Definition finishM (raw : list N) (rest' : list N) : res (strtok * list N * list
   | Err => Err
   end.
 
-Lemma single_agree p raw ib q t : prefix_ok p raw ib -> (q = 34 \/ q = 39) -> valid_utf8 t = true ->
+(* what the implementation's two passes return, in terms of `fin` (any source) *)
+Lemma single_model p raw ib q t : prefix_ok p raw ib -> (q = 34 \/ q = 39) ->
   mobs (match scan1 q 0 false t with
         | Ok (body, rest') => finishM (p ++ [q] ++ body) rest'
         | Err => Err
         end)
-  = sobs_of (omap (fun p0 : list N * list N => (ib, fst p0, snd p0)) (s_items raw ib false q t)).
+  = sobs_of (omap (fun p0 : list N * list N => (ib, fst p0, snd p0))
+                  (fin false raw ib (scanG false q 0 false 0 t))).
 Proof.
-  intros Hp Hq Hv. rewrite <- (scanG_scan1 q t 0 false 0).
-  rewrite <- (items_agree false raw ib q Hq (length t) t (le_n _) Hv).
+  intros Hp Hq. rewrite <- (scanG_scan1 q t 0 false 0).
   destruct (scanG false q 0 false 0 t) as [[b r]|] eqn:S; [|reflexivity].
   destruct (scanG_ends0 _ _ _ _ _ _ _ Hq S) as [b0 ->]. cbn [closer] in *.
   cbn [fin]. change (klen false) with (length [q]). rewrite chop_closer.
@@ -129,15 +130,15 @@ Proof.
   destruct (unq_loop ib raw b0); [|reflexivity]. destruct ib; reflexivity.
 Qed.
 
-Lemma triple_agree p raw ib q t : prefix_ok p raw ib -> (q = 34 \/ q = 39) -> valid_utf8 t = true ->
+Lemma triple_model p raw ib q t : prefix_ok p raw ib -> (q = 34 \/ q = 39) ->
   mobs (match scan3 q 0 false 0 t with
         | Ok (body, rest') => finishM (p ++ [q; q; q] ++ body) rest'
         | Err => Err
         end)
-  = sobs_of (omap (fun p0 : list N * list N => (ib, fst p0, snd p0)) (s_items raw ib true q t)).
+  = sobs_of (omap (fun p0 : list N * list N => (ib, fst p0, snd p0))
+                  (fin true raw ib (scanG true q 0 false 0 t))).
 Proof.
-  intros Hp Hq Hv. rewrite <- (scanG_scan3 q t 0 false 0).
-  rewrite <- (items_agree true raw ib q Hq (length t) t (le_n _) Hv).
+  intros Hp Hq. rewrite <- (scanG_scan3 q t 0 false 0).
   destruct (scanG true q 0 false 0 t) as [[b r]|] eqn:S; [|reflexivity].
   destruct (scanG_ends0 _ _ _ _ _ _ _ Hq S) as [b0 ->]. cbn [closer] in *.
   cbn [fin]. change (klen true) with (length [q; q; q]). rewrite chop_closer.
@@ -146,74 +147,137 @@ Proof.
   destruct (unq_loop ib raw b0); [|reflexivity]. destruct ib; reflexivity.
 Qed.
 
+(* the two modes of agreement on observations: ex = true: equal; ex = false: both
+   reject, or both accept with the same kind and the same remaining input *)
+Definition extent (o : sobs) : option (bool * list N) :=
+  match o with SErr => None | SOk b _ rest => Some (b, rest) end.
+Definition orel (ex : bool) (a b : sobs) : Prop := if ex then a = b else extent a = extent b.
+
+Lemma orel_refl ex a : orel ex a a.
+Proof. destruct ex; reflexivity. Qed.
+
+Lemma orel_lift ex ib A B : rel ex A B ->
+  orel ex (sobs_of (omap (fun p0 : list N * list N => (ib, fst p0, snd p0)) A))
+          (sobs_of (omap (fun p0 : list N * list N => (ib, fst p0, snd p0)) B)).
+Proof.
+  destruct ex; cbn [rel orel]; intros H; [now rewrite H|].
+  destruct A as [[a b]|], B as [[c d]|]; cbn in *; congruence.
+Qed.
+
+Lemma single_agree ex p raw ib q t : prefix_ok p raw ib -> (q = 34 \/ q = 39) -> okv ex t ->
+  orel ex (mobs (match scan1 q 0 false t with
+                 | Ok (body, rest') => finishM (p ++ [q] ++ body) rest'
+                 | Err => Err
+                 end))
+          (sobs_of (omap (fun p0 : list N * list N => (ib, fst p0, snd p0)) (s_items raw ib false q t))).
+Proof.
+  intros Hp Hq Hv. rewrite (single_model p raw ib q t Hp Hq). apply orel_lift.
+  exact (items_agree_rel ex false raw ib q Hq (length t) t (le_n _) Hv).
+Qed.
+
+Lemma triple_agree ex p raw ib q t : prefix_ok p raw ib -> (q = 34 \/ q = 39) -> okv ex t ->
+  orel ex (mobs (match scan3 q 0 false 0 t with
+                 | Ok (body, rest') => finishM (p ++ [q; q; q] ++ body) rest'
+                 | Err => Err
+                 end))
+          (sobs_of (omap (fun p0 : list N * list N => (ib, fst p0, snd p0)) (s_items raw ib true q t))).
+Proof.
+  intros Hp Hq Hv. rewrite (triple_model p raw ib q t Hp Hq). apply orel_lift.
+  exact (items_agree_rel ex true raw ib q Hq (length t) t (le_n _) Hv).
+Qed.
+
 Lemma is_quote_cases c : is_quote c = true -> c = 34 \/ c = 39.
 Proof. unfold is_quote. cst. lia. Qed.
 
 (* scanString at the opening quote against the specification's delimited reader *)
-Lemma scan_string_agree p raw ib q t : prefix_ok p raw ib -> (q = 34 \/ q = 39) ->
-  valid_utf8 t = true ->
-  mobs (scan_string p q (q :: t)) = sobs_of (s_delimited raw ib (q :: t)).
+Lemma scan_string_agree ex p raw ib q t : prefix_ok p raw ib -> (q = 34 \/ q = 39) ->
+  okv ex t ->
+  orel ex (mobs (scan_string p q (q :: t))) (sobs_of (s_delimited raw ib (q :: t))).
 Proof.
   intros Hp Hq Hv. unfold scan_string, s_delimited. cbv zeta.
   assert (SQ : s_is_quote q = true) by (destruct Hq as [-> | ->]; reflexivity). rewrite SQ.
   destruct t as [|a [|b r3]].
-  - exact (single_agree p raw ib q [] Hp Hq Hv).
-  - exact (single_agree p raw ib q [a] Hp Hq Hv).
+  - exact (single_agree ex p raw ib q [] Hp Hq Hv).
+  - exact (single_agree ex p raw ib q [a] Hp Hq Hv).
   - rewrite N.eqb_refl. cbn [andb].
     destruct ((a =? q) && (b =? q)) eqn:E.
     + assert (a = q) by lia. assert (b = q) by lia. subst a b.
-      assert (V3 : valid_utf8 r3 = true) by (apply (valid_ascii_app [q; q]); [repeat constructor; lia|exact Hv]).
-      exact (triple_agree p raw ib q r3 Hp Hq V3).
-    + exact (single_agree p raw ib q (a :: b :: r3) Hp Hq Hv).
+      assert (V3 : okv ex r3) by (apply (okv_app ex [q; q]); [repeat constructor; lia|exact Hv]).
+      exact (triple_agree ex p raw ib q r3 Hp Hq V3).
+    + exact (single_agree ex p raw ib q (a :: b :: r3) Hp Hq Hv).
 Qed.
 
 Lemma s_delimited_nonquote raw ib c t : is_quote c = false -> s_delimited raw ib (c :: t) = None.
 Proof. intros H. unfold s_delimited. change (s_is_quote c) with (is_quote c). rewrite H. reflexivity. Qed.
 
-(* THE THEOREM: on every well-formed source text the scanner + unquote and the
-   specification's single-pass reader return the same observation. *)
-Theorem scan_agrees_with_spec_lemma : forall src,
-  valid_utf8 src = true -> model_scan src = spec_scan src.
+(* both modes at once *)
+Theorem scan_agrees_rel ex : forall src,
+  okv ex src -> orel ex (model_scan src) (spec_scan src).
 Proof.
-  intros src Hv. change (mobs (scan_literal src) = sobs_of (spec_literal src)).
+  intros src Hv. change (orel ex (mobs (scan_literal src)) (sobs_of (spec_literal src))).
   unfold scan_literal, spec_literal.
-  destruct src as [|c t]; [reflexivity|].
+  destruct src as [|c t]; [apply orel_refl|].
   destruct (is_quote c) eqn:QC.
   { pose proof (is_quote_cases c QC) as Hq.
     assert (A : (c =? 114) = false) by lia. assert (B : (c =? 98) = false) by lia. rewrite A, B.
-    apply (scan_string_agree [] false false c t P_none Hq).
-    apply (valid_ascii_app [c]); [repeat constructor; lia|exact Hv]. }
+    apply (scan_string_agree ex [] false false c t P_none Hq).
+    apply (okv_app ex [c]); [repeat constructor; lia|exact Hv]. }
   destruct (c =? 114) eqn:C114.
   { assert (c = 114) by lia. subst c. change ((114 =? 114) || (114 =? 98)) with true.
-    destruct t as [|c1 t1]; [reflexivity|].
-    assert (V1 : valid_utf8 (c1 :: t1) = true) by (apply (valid_ascii_app [114]); [repeat constructor; lia|exact Hv]).
+    destruct t as [|c1 t1]; [apply orel_refl|].
+    assert (V1 : okv ex (c1 :: t1)) by (apply (okv_app ex [114]); [repeat constructor; lia|exact Hv]).
     destruct (is_quote c1) eqn:Q1.
     - pose proof (is_quote_cases c1 Q1) as Hq. cbn [andb].
       assert (B : (c1 =? 98) = false) by lia. rewrite B.
-      apply (scan_string_agree [114] true false c1 t1 P_r Hq).
-      apply (valid_ascii_app [c1]); [repeat constructor; lia|exact V1].
+      apply (scan_string_agree ex [114] true false c1 t1 P_r Hq).
+      apply (okv_app ex [c1]); [repeat constructor; lia|exact V1].
     - cbn [andb]. destruct t1 as [|c2 t2].
-      + destruct (c1 =? 98); [reflexivity|]. rewrite s_delimited_nonquote by exact Q1. reflexivity.
+      + destruct (c1 =? 98); [apply orel_refl|]. rewrite s_delimited_nonquote by exact Q1. apply orel_refl.
       + change (114 =? 114) with true. cbn [andb].
         destruct (c1 =? 98) eqn:C98.
         * assert (c1 = 98) by lia. subst c1. cbn [andb].
           destruct (is_quote c2) eqn:Q2.
           -- pose proof (is_quote_cases c2 Q2) as Hq.
-             apply (scan_string_agree [114; 98] true true c2 t2 P_rb Hq).
-             apply (valid_ascii_app [98; c2]); [repeat constructor; lia|exact V1].
-          -- rewrite s_delimited_nonquote by exact Q2. reflexivity.
-        * cbn [andb]. rewrite s_delimited_nonquote by exact Q1. reflexivity. }
+             apply (scan_string_agree ex [114; 98] true true c2 t2 P_rb Hq).
+             apply (okv_app ex [98; c2]); [repeat constructor; lia|exact V1].
+          -- rewrite s_delimited_nonquote by exact Q2. apply orel_refl.
+        * cbn [andb]. rewrite s_delimited_nonquote by exact Q1. apply orel_refl. }
   destruct (c =? 98) eqn:C98.
   { assert (c = 98) by lia. subst c. change ((98 =? 114) || (98 =? 98)) with true.
-    destruct t as [|c1 t1]; [reflexivity|].
-    assert (V1 : valid_utf8 (c1 :: t1) = true) by (apply (valid_ascii_app [98]); [repeat constructor; lia|exact Hv]).
+    destruct t as [|c1 t1]; [apply orel_refl|].
+    assert (V1 : okv ex (c1 :: t1)) by (apply (okv_app ex [98]); [repeat constructor; lia|exact Hv]).
     destruct (is_quote c1) eqn:Q1.
     - pose proof (is_quote_cases c1 Q1) as Hq. cbn [andb].
-      apply (scan_string_agree [98] false true c1 t1 P_b Hq).
-      apply (valid_ascii_app [c1]); [repeat constructor; lia|exact V1].
+      apply (scan_string_agree ex [98] false true c1 t1 P_b Hq).
+      apply (okv_app ex [c1]); [repeat constructor; lia|exact V1].
     - cbn [andb]. rewrite s_delimited_nonquote by exact Q1.
-      destruct t1 as [|c2 t2]; reflexivity. }
+      destruct t1 as [|c2 t2]; apply orel_refl. }
   cbn [orb]. rewrite s_delimited_nonquote by exact QC.
-  destruct t as [|c1 t1]; [reflexivity|]. cbn [andb].
-  destruct t1 as [|c2 t2]; reflexivity.
+  destruct t as [|c1 t1]; [apply orel_refl|]. cbn [andb].
+  destruct t1 as [|c2 t2]; apply orel_refl.
+Qed.
+
+(* THE THEOREM: on every well-formed source text the scanner + unquote and the
+   specification's single-pass reader return the same observation. *)
+Theorem scan_agrees_with_spec_lemma : forall src,
+  valid_utf8 src = true -> model_scan src = spec_scan src.
+Proof. intros src Hv. exact (scan_agrees_rel true src Hv). Qed.
+
+(* ... and on EVERY byte string (ill-formed UTF-8 included) they accept or reject
+   together, with the same string / bytes kind and the same remaining input. *)
+Theorem scan_extent_agrees_lemma : forall src,
+  extent (model_scan src) = extent (spec_scan src).
+Proof. intros src. exact (scan_agrees_rel false src I). Qed.
+
+(* the same, spelled out without auxiliary definitions *)
+Theorem scan_accepts_same_extent_lemma : forall src,
+  match model_scan src, spec_scan src with
+  | SErr, SErr => True
+  | SOk b1 _ rest1, SOk b2 _ rest2 => b1 = b2 /\ rest1 = rest2
+  | _, _ => False
+  end.
+Proof.
+  intros src. pose proof (scan_extent_agrees_lemma src) as H.
+  destruct (model_scan src), (spec_scan src); cbn in H; try discriminate; [exact I|].
+  inversion H. split; reflexivity.
 Qed.
